@@ -198,6 +198,78 @@ func vh_C09_L6_parked_handshake_handler_released_by_close() {
 	vcover("end")
 }
 
+// C09.L6b: the same with Close itself racing the handler. The handlers (COOKIE ACK, COOKIE
+// ECHO, a T1 failure) offer the handshake result while they hold the association lock; the
+// connect call has gone away, so the offer parks; Close, called from another goroutine at
+// that moment, must still get through and release the handler (it cannot need the
+// association lock before it has closed the channels the handler is watching).
+func vh_C09_L6_close_gets_through_to_a_handler_parked_under_the_lock() {
+	a := vHandshakeEndpoint(vPick(2) == 1, false)
+	a.handshakeCompletedCh = make(chan error) // nobody is receiving any more
+	vGoLive = true
+	vGo(func() {
+		vSleep(50 * time.Millisecond) // the handler is parked by now
+		_ = a.Close()
+	})
+	a.lock.Lock() // chunk handlers and timer callbacks run under the association lock
+	vMustNotBlock("a handler parked in completeHandshake under the association lock is released by a concurrent Close")
+	sent := a.completeHandshake(nil)
+	vMayBlock()
+	a.lock.Unlock()
+	vassert(!sent, "the result is not delivered to anybody")
+	vassert(vIsShut(a), "Close got through")
+	vcover("end")
+}
+
+// C09.L12: nothing is left behind by a reader that was parked when the association ended. A
+// read deadline far in the future is armed (its goroutine waits for the timer or for its
+// cancel channel) and a reader is parked in a real ReadSCTP call on the empty stream; then,
+// from another goroutine, the transport fails, the peer aborts or Close is called. The
+// parked read returns the teardown error, and by the time it has returned the deadline
+// goroutine has been told to stop (its cancel channel is closed): no goroutine and no timer
+// outlive the association.
+func vh_C09_L12_parked_reader_leaves_no_deadline_goroutine() {
+	a, conn := vNewAssoc()
+	s, err := a.OpenStream(3, PayloadTypeWebRTCBinary)
+	vassert(err == nil, "open stream")
+	vassert(s.SetReadDeadline(time.Now().Add(time.Hour)) == nil, "deadline armed")
+	cancel := s.readTimeoutCancel
+	vassert(len(vSpawned) == 1 && cancel != nil, "the deadline goroutine is pending")
+	how := vPick(3)
+	vGoLive = true
+	vGo(func() {
+		vSleep(50 * time.Millisecond) // the reader is parked by now
+		switch how {
+		case 0: // transport failure
+			conn.failReads = true
+			a.readLoop()
+		case 1: // ABORT from the peer
+			abort := &chunkAbort{errorCauses: []errorCause{&errorCauseUserInitiatedAbort{upperLayerAbortReason: []byte{1, 2}}}}
+			raw, _ := (&packet{verificationTag: a.myVerificationTag, sourcePort: 5000, destinationPort: 5000, chunks: []chunk{abort}}).marshal(true)
+			conn.inbound = [][]byte{raw}
+			conn.failReads = true
+			a.readLoop()
+		case 2: // Close
+			conn.failReads = true
+			_ = a.close()
+			a.readLoop()
+		}
+	})
+	vMustNotBlock("a reader parked on a stream is released by the teardown")
+	n, _, rerr := s.ReadSCTP(make([]byte, 4))
+	vMayBlock()
+	vassert(n == 0 && rerr != nil && !errors.Is(rerr, ErrReadDeadlineExceeded), "the parked read returns the teardown error")
+	stopped := false
+	select {
+	case <-cancel:
+		stopped = true
+	default:
+	}
+	vassert(stopped, "the read-deadline goroutine is told to stop when the read returns: nothing outlives the association")
+	vSpawned = nil
+	vcover("end")
+}
+
 // C09.L7: every reader blocked on a stream is woken by the teardown, not just one of them.
 func vh_C09_L7_every_blocked_reader_is_woken() {
 	a, conn, streams := vTeardownPreState()
